@@ -159,6 +159,19 @@ static void sha512_compress(std::uint64_t state[8], const std::uint8_t* buf)
         state[i] = state[i] + S[i];
 }
 
+#if defined(TLX_VERIF)
+// verification hook (off unless TLX_VERIF is defined): direct access to the
+// compression function, and optional redirection of its calls to a recorder.
+void tlx_verif_real_sha512_compress(std::uint64_t* state, const std::uint8_t* buf)
+{
+    sha512_compress(state, buf);
+}
+#if defined(TLX_VERIF_DIGEST_HOOK)
+void tlx_verif_sha512_compress(std::uint64_t* state, const std::uint8_t* buf);
+#define sha512_compress tlx_verif_sha512_compress
+#endif
+#endif // TLX_VERIF
+
 } // namespace digest_detail
 
 SHA512::SHA512()
